@@ -142,12 +142,11 @@ def get_type_graph(t: type) -> graphlib.TopologicalSorter[TypeNode]:
                 #   so we defer the type itself, it will be resolved lazily.
                 node = TypeNode(type=child, unwrapped=unwrapped, var=var, cyclic=True)
             elif is_visited and can_be_cyclic:
-                qualname = inspection.qualname(child)
-                *rest, refname = qualname.split(".", maxsplit=1)
+                # Reference the class by its full qualified name within its own module,
+                #   `Outer.Inner` lives in the module of `Outer`, not in a module "Outer".
+                refname = inspection.qualname(child)
                 is_argument = var is not None
-                module = ".".join(rest) or getattr(child, "__module__", None)
-                if module in (None, "__main__") and rest:
-                    module = rest[0]
+                module = getattr(child, "__module__", None)
                 is_class = inspect.isclass(child)
                 ref = refs.forwardref(
                     refname, is_argument=is_argument, module=module, is_class=is_class
